@@ -40,6 +40,81 @@ def finding_matches(f, prop, fail):
     return True
 
 
+def thorough_extras(prop, cfg, infra):
+    """(1) Verus proof stability under other Z3 seeds, (2) committed mutation self-test, (3) deeper bounded sweep"""
+    import extract, shutil, mutants
+    out = {}
+    # ---- (1) stability: the same units must verify under two more solver seeds; an unstable proof is an INFRA matter, not an alarm
+    stab = []
+    for un in cfg.get("units", []):
+        for seed in (7, 1234):
+            try:
+                r = verus_unit.run_unit(un, extra_args=("--smt-option", "smt.random_seed=%d" % seed))
+                bad = [f["obligation"] for f in r["failures"] if f["label"].startswith(prop + ".") or f["label"] == "proof-step"]
+                stab.append(dict(unit=un, seed=seed, stable=not bad and not r["infra"], failed=bad[:5]))
+                if bad or r["infra"]:
+                    infra.append("unit %s: proof not stable under smt.random_seed=%d (%s)" % (un, seed, (bad or r["infra"])[:2]))
+            except Exception as e:
+                stab.append(dict(unit=un, seed=seed, stable=False, error=str(e)[:200]))
+    out["proof_stability"] = stab
+    # ---- (2) mutation self-test on a scratch copy of src/ (Verus units only)
+    scratch = "/var/tmp/verif-mut-%d" % os.getpid()
+    results = []
+    real_repo = extract.REPO
+    try:
+        for (mp, what, rel, frm, to) in mutants.M:
+            if mp != prop:
+                continue
+            shutil.rmtree(scratch, ignore_errors=True)
+            shutil.copytree(os.path.join(real_repo, "src"), os.path.join(scratch, "src"))
+            path = os.path.join(scratch, rel)
+            text = open(path).read()
+            if text.count(frm) != 1:
+                results.append(dict(mutant=what, file=rel, status="stale (pattern found %d times)" % text.count(frm)))
+                continue
+            open(path, "w").write(text.replace(frm, to))
+            extract.REPO = scratch
+            caught, why = False, []
+            for un in cfg.get("units", []):
+                try:
+                    r = verus_unit.run_unit(un)
+                except (AnchorLost, Infra) as e:
+                    why.append("unit %s undecided: %s" % (un, str(e)[:120])); continue
+                hits = [f["obligation"] + ((" [" + f["detail"] + "]") if f.get("detail") else "") for f in r["failures"]
+                        if f["label"].startswith(prop + ".") or f["label"] == "proof-step" or (prop == "C10" and f["label"] == "C10.safety")]
+                if hits:
+                    caught = True; why = hits[:4]; break
+                if r["infra"]:
+                    why.append("unit %s undecided: %s" % (un, r["infra"][0][:120]))
+            results.append(dict(mutant=what, file=rel, status="caught" if caught else "SURVIVED", by=why))
+    finally:
+        extract.REPO = real_repo
+        extract._sources.clear()
+        shutil.rmtree(scratch, ignore_errors=True)
+        for un in cfg.get("units", []):   # regenerate the units from the real tree so that build/ is not left mutated
+            try:
+                verus_unit.run_unit(un)
+            except Exception:
+                pass
+    out["mutation_self_test"] = dict(mutants=len(results), caught=len([r for r in results if r["status"] == "caught"]),
+                                     survived=[r for r in results if r["status"] == "SURVIVED"],
+                                     stale=[r for r in results if r["status"].startswith("stale")], table=results)
+    # ---- (3) deeper bounded sweep
+    if cfg.get("sweep", True):
+        try:
+            import replay_driver
+            os.environ["VERIF_SWEEP_DEEP"] = "1"
+            d = replay_driver.sweep(prop)
+            out["deep_sweep"] = dict(scenarios=d["scenarios"], families=d["families"], violations=d["violations"])
+            if d["violations"]:
+                out["deep_sweep"]["note"] = "violations found only by the deeper sweep are reported below as VIOLATION lines"
+        except Exception as e:
+            out["deep_sweep"] = dict(error=str(e)[:300])
+        finally:
+            os.environ.pop("VERIF_SWEEP_DEEP", None)
+    return out
+
+
 def main():
     ap = argparse.ArgumentParser()
     ap.add_argument("prop")
@@ -168,6 +243,11 @@ def main():
         except Exception as e:
             infra.append("bounded sweep unavailable: %s" % str(e)[:300])
 
+    # ------------------------------------------------------------------ thorough tier extras (reported in evidence; never decide the verdict alone)
+    thorough = {}
+    if a.tier == "thorough":
+        thorough = thorough_extras(prop, cfg, infra)
+
     # ------------------------------------------------------------------ verdict
     known = load_known()
     new_fail, known_hit = [], []
@@ -244,6 +324,7 @@ def main():
             solver_time_ms=round(solver_ms, 1),
             known_findings_open=[dict(obligation=f["obligation"], detail=f.get("detail"), what=kf.get("what")) for kf, f in known_hit],
             undecided_clauses=cfg.get("undecided", []),
+            thorough=thorough,
             infra=infra,
         ),
         assumptions=cfg.get("assumptions", []) + P.COMMON_ASSUMPTIONS,
